@@ -53,6 +53,13 @@ def _maps_part(ck, tier):
         ck.violation("spec:MapLaws", {"violated": r.violated}, site="spec")
     must_pass(r, "MC_LimitsMap")
     ck.tlc(r, "maps")
+    # the same laws without the window: every integer position and lower limit, widths 1..12, by Apalache (SMT over unbounded integers)
+    from harness.core import run_apalache
+    ra = run_apalache("APA_LimitMaps")
+    ck.parts["maps_unbounded"] = {"tool": "apalache-mc 0.58 (symbolic, unbounded integers)", "cmd": ra["cmd"], "outcome": ra["outcome"], "wall_s": ra["wall_s"],
+                                  "covers": "all integer t and lo, widths 1..12: inside, identity, mirror at both limits, period 2W, momentum sign parity"}
+    if not ra["ok"]:
+        ck.violation("spec:MapLaws (unbounded, Apalache)", {"outcome": ra["outcome"]}, site="spec")
     rng = np.random.default_rng(seed())
     scales = [0, -20, -7, 11, 20] if tier == "quick" else list(range(-24, 25, 3))
     n = 0
